@@ -1,7 +1,9 @@
 package harness
 
 import (
+	"bytes"
 	"encoding/binary"
+	"encoding/json"
 	"fmt"
 	"reflect"
 	"strings"
@@ -415,7 +417,12 @@ func c15Client(m *Model, v *Verdict, rng *RNG) {
 			for _, s := range sname {
 				c.server.comps = append(c.server.comps, []byte(s))
 			}
-			c.t = [4]uint32{uint32(now.Add(-time.Hour).Unix()), uint32(now.Add(-time.Hour).Unix()), uint32(now.Add(time.Hour).Unix()), uint32(now.Add(24 * time.Hour).Unix())}
+			// every credential has times of its own (a renew-till of 0: not renewable)
+			k := time.Duration(rng.Intn(50))
+			c.t = [4]uint32{uint32(now.Add(-time.Hour - k*time.Minute).Unix()), uint32(now.Add(-time.Hour - k*time.Second).Unix()), uint32(now.Add(time.Hour + k*time.Minute).Unix()), uint32(now.Add(24*time.Hour + k*time.Hour).Unix())}
+			if rng.Intn(3) == 0 {
+				c.t[3] = 0
+			}
 			if conf {
 				c.server = ccPrinc{realm: []byte("X-CACHECONF:"), comps: [][]byte{[]byte("krb5_ccache_conf_data"), []byte("pa_type")}}
 				c.ticket = []byte("2")
@@ -474,6 +481,31 @@ func c15Client(m *Model, v *Verdict, rng *RNG) {
 			tb, _ := tkt.Marshal()
 			if !ok || string(tb) != string(c.ticket) || string(key.KeyValue) != string(c.key) || key.KeyType != int32(c.kt) {
 				v.Violate("failing-input", "c15:client-holds", "the client built from the cache does not serve the ticket and key written for an SPN", map[string]string{"spn": spn, "file": X(file)})
+			}
+		}
+		// the times the client holds for each ticket are the ones written for it (the client's own report of its cache)
+		{
+			var w bytes.Buffer
+			cl.Print(&w)
+			out := w.String()
+			i, j := strings.Index(out, "Service ticket cache:\n"), strings.Index(out, "\nSettings:")
+			var held []struct {
+				SPN                                     string
+				AuthTime, StartTime, EndTime, RenewTill time.Time
+			}
+			if i >= 0 && j > i && json.Unmarshal([]byte(out[i+len("Service ticket cache:\n"):j]), &held) == nil {
+				for _, h := range held {
+					c, ok := last[h.SPN]
+					if !ok {
+						continue
+					}
+					got := [4]int64{h.AuthTime.Unix(), h.StartTime.Unix(), h.EndTime.Unix(), h.RenewTill.Unix()}
+					want := [4]int64{int64(c.t[0]), int64(c.t[1]), int64(c.t[2]), int64(c.t[3])}
+					if got != want {
+						v.Violate("failing-input", "c15:client-times", "the client built from the cache holds other times (auth, start, end, renew-till) for a ticket than the cache file gives it", map[string]string{"spn": h.SPN, "held": fmt.Sprint(got), "written": fmt.Sprint(want), "file": X(file)})
+						break
+					}
+				}
 			}
 		}
 		if _, _, ok := cl.GetCachedTicket("nfs/not.in.cache"); ok {
